@@ -207,6 +207,8 @@ def build_metrics_rules(ck, prog, rule3='C06.R3', rule4='C06.R4', fname='sdk::me
         ck.verdict(ok, rule3, f, 'return-without-report@%s' % ('single' if g.must_pass_edge(r, single_edge) else 'multi'), r.n,
                    'early return only on the single-collector fast path or when this reader has no stash' if ok else
                    'buildMetrics can return without a report before this reader\'s stash was consulted although several readers may be attached: what other readers\' collections stashed for this reader is never delivered')
+    if rule4 is None:
+        return f
     # R4: start timestamps
     starts = [p for p in g.points if p.n is not None and p.ctx is g.root_ctx and
               ((p.n['k'] == 'call' and p.n.get('op') == '=' and p.n.get('obj') is not None and access_path(f, p.n['obj'])[-1:] == ('start_ts',)) or
